@@ -319,6 +319,8 @@ open SST.OrderSpec SST.Generated.Order in
 /-- `Close` of an open database with a non-empty write store, compactions ENABLED (cf. `OrderSpec.cfgClose`) -/
 def cfgCloseComp : OrderSpec.Cfg :=
   { dec := [("DB.Close", "!db.open", [false]), ("DB.Close", "db.closed", [false]), ("DB.Close", "db.enableCompactions", [true]),
+            -- the same two state checks in the normal form of a called body (function literal / helper method)
+            ("DB.Close", "simpledb.DB.open", [true]), ("DB.Close", "!simpledb.DB.closed", [true]),
             ("simpledb.executeFlush", "walPath != \"\"", [true])] ++ commonDec
     reps := commonReps
     callee := callees }
